@@ -8,7 +8,7 @@
 (* plaintext precision).                                                                      *)
 EXTENDS Integers, Sequences, FiniteSets, TLC, Json, IOUtils, SequencesExt
 
-CONSTANTS Ns, Bs, MaxS, Ranks, Dists, Classes, NoiseIdx, Paths
+CONSTANTS DeepNs, Ns, Bs, MaxS, Ranks, Dists, Classes, NoiseIdx, Paths
 \* (10*sigma, 10*bound): smallest legal noise, wider bounds, and the library default (3.2, 19.2)
 NoiseTable == << <<10, 10>>, <<10, 20>>, <<10, 60>>, <<32, 192>> >>
 Noises == {NoiseTable[k] : k \in NoiseIdx}
@@ -33,8 +33,12 @@ Progs == UNION { UNION { { Prog(n, b, rank, dist, noise, path, sz, koff, pl[1], 
 \* a plaintext in ANOTHER radix than the ciphertext (secret-key and compressed paths; the public-key path asserts equal radices)
 ProgsX == UNION { { Prog(n, b, rank, "ternary_prob", NoiseTable[1], path, sz, 0, pl[1], pl[2], pc, b, sz) :
                       n \in Ns, rank \in {1}, path \in (Paths \cap {"enc_sk", "enc_c"}), sz \in 2..MaxS, pl \in OtherRadix(b, 1), pc \in Classes } : b \in Bs }
+\* plaintexts much shorter than the ciphertext at a ring large relative to the radix: the limbs of the mask beyond
+\* the plaintext's precision times the secret still reach the plaintext's last limb (N * 2^-b is not small)
+ProgsDeep == { Prog(n, 2, rank, "ternary_prob", NoiseTable[1], path, sz, 0, 2, 1, pc, 2, 2) :
+                 n \in DeepNs, rank \in {2, 3}, path \in (Paths \cap {"enc_sk", "enc_pk"}), sz \in {3, 4, 5}, pc \in {2, 3} }
 \* the zero-encryption path carries no message; the compressed / public-key paths are secret-key-independent of dist variety
-Progs1 == { p \in Progs : (p.prog[1].op = "enc_zero_sk" => p.prog[1].pc = 0) } \cup ProgsX
+Progs1 == { p \in Progs : (p.prog[1].op = "enc_zero_sk" => p.prog[1].pc = 0) } \cup ProgsX \cup ProgsDeep
 
 ASSUME ndJsonSerialize(IOEnv.OUT, SetToSeq(Progs1))
 ASSUME PrintT(<<"GENERATED", Cardinality(Progs1)>>)
